@@ -6,6 +6,7 @@ from ..distcases import run_c14_case
 
 ID = 'C14'
 LEVEL = 'exploration'
+QUICK_SCALE = 5      # the quick tier was enlarged by this factor after MIN_OBS['quick'] was measured
 RULE = (
     "One run = one simulated world: scripted server, the real client 'me' logged in with a scanned share (1-3 "
     "shared directories, modes everyone/friends/users, 2-6 files each, names from a per-run word pool with "
@@ -17,8 +18,17 @@ RULE = (
     "DistributedSearchRequest, 35 % DistributedServerSearchRequest (legacy) on the parent's link, 15 % "
     "ServerSearchRequest; without a parent ServerSearchRequest. Users: askers, distributed peers, the own name; "
     "tickets unique; queries from the C07 generator over the words of the share. Half of the runs separate "
-    "requests by quiescence, the other half fire a burst with gaps of 0-3 yields / 2-10 ms. Oracle per request, "
-    "K = links of the client's children at the quiescent moment before the burst: exactly one "
+    "requests by quiescence, the other half fire a burst with gaps of 0-3 yields / 2-10 ms. Two further families: "
+    "'many-proposals' (16 % of the runs): the tree starts with three PotentialParents lists of 9-12 names (31+ in "
+    "all, more than the documented 20-name cache; all but one unreachable) and the connect to the first proposed "
+    "user takes 2-3 s, so it completes after its name left the cache; that user is the run's candidate. "
+    "'closing-child' (20 %): every connection has whole segments and one fixed latency equal to the FIN latency, and "
+    "in 70 % of the bursts with >= 2 children one child closes/aborts at the very instant the requests are sent (FIN "
+    "and first request reach the client in the same loop iteration, either order): that child may get 0 or 1 "
+    "copies, its siblings exactly one (forward:missing:while-a-child-closes). Oracle per request, "
+    "K = links of the client's children at the quiescent moment before the burst, minus every connection the client "
+    "itself opened (SimNet: dialled by 'me' or pierced on the client's ConnectToPeer - a connection to a proposed "
+    "user is a candidate's whatever the children list says: forward:to-candidate): exactly one "
     "DistributedSearchRequest with the same user/ticket/query on every link in K, none on any other link of any "
     "scripted party (parent, candidates, former children, P links); own-name requests: nothing anywhere and no "
     "reply; reply: the asker receives exactly one PeerSearchReply(username 'me', ticket) whose results / "
@@ -38,12 +48,14 @@ ASSUMPTIONS = [
 ]
 MIN_OBS = {
     'quick': {'runs': 290, 'requests_judged': 1400, 'forwards_checked': 3000, 'replies_checked': 1000,
-              'replies_expected': 250, 'own_name_requests': 100},
+              'replies_expected': 250, 'own_name_requests': 100, 'bursts_with_child_closing': 30,
+              'runs_with_many_proposals': 25},
     'thorough': {'runs': 9800, 'requests_judged': 48000, 'forwards_checked': 100000, 'replies_checked': 35000,
-                 'replies_expected': 8000, 'own_name_requests': 3500},
+                 'replies_expected': 8000, 'own_name_requests': 3500, 'bursts_with_child_closing': 1000,
+                 'runs_with_many_proposals': 900},
 }
 SHARD_TIMEOUT = {'quick': 600, 'thorough': 5400}
-SIZES = {'quick': 300, 'thorough': 10000}
+SIZES = {'quick': 1500, 'thorough': 10000}
 WHAT_FAILS = {
     'forward:': 'a search request was not passed on exactly once to exactly the current children',
     'own-search:forwarded': 'a request carrying the own user name was passed on to the children',
